@@ -14,11 +14,13 @@ CONSTANTS
  InlineData = TRUE
  Conc = 3
  Probes = FALSE
- Exts = {FALSE}
+ Exts = {0}
  KeepSlots = FALSE
  TarUnverified = FALSE
  MTs = {TRUE, FALSE}
  DigestHdrs = {"absent", "echo", "served", "servedother", "garbage"}
+ Sts = {"std", "alt"}
+ DropKinds = {"ueof"}
 INIT Init
 NEXT Next
 VIEW View
